@@ -49,7 +49,7 @@ ASSUMPTIONS = [
     "scenarios are deadlock-free by construction: every pre-allocated qubit is freed before the first wait, every "
     "request is awaited before its subroutine ends",
 ]
-PROBES = ["sdk-form", "early-response", "deferred-busy-qubit", "two-requests-one-key", "cross-key-reorder", "wait-polled",
+PROBES = ["purpose-id-differs-from-socket-id", "request-refused-by-stack", "sdk-form", "early-response", "deferred-busy-qubit", "two-requests-one-key", "cross-key-reorder", "wait-polled",
           "wait_any", "wait_single", "create-role", "recv-role", "type-M", "type-K", "legacy-tuples", "qlink-objects",
           "two-apps-concurrent", "retry-fired"]
 
@@ -62,6 +62,16 @@ def emit_array(p: List[tuple], addr: int, values: List[Optional[int]]) -> None:
     for i, v in enumerate(values):
         if v is not None:
             p += [("set", T1, v), ("set", T2, i), ("store", T1, addr, T2)]
+
+
+REFUSE_TAG = 7777
+PMAPS = [lambda s: s, lambda s: s + 7, lambda s: 15 - s]   # socket id -> purpose id, per node and run
+
+
+def install_purpose_map(ch, node, bump=None) -> int:
+    k = ch.weighted([2, 1, 1], "pmap")
+    node.stack.pfun = PMAPS[k]
+    return k
 
 
 class Req:
@@ -113,6 +123,19 @@ def gen_scenario(ch: Choices, calm: bool, tier: str = "quick") -> Dict[str, Any]
                 jx = ch.draw(i + 1, "worder")
                 order[i], order[jx] = order[jx], order[i]
             subs.append({"reqs": reqs, "filler": filler, "waits": waits, "order": order, "unit_need": vnext})
+        if not calm and ch.flag(1, 5, "refused"):
+            # injected fault: one create request, alone in its own subroutine, is refused by the network stack; the
+            # subroutine aborts there and nothing of the request may stay behind in the controller
+            so = socks[ch.draw(len(socks), "sock")]
+            tp = "K" if ch.flag(1, 2, "type") else "M"
+            n = 1 + ch.draw(2, "npairs")
+            vids = list(range(vnext, vnext + n)) if tp == "K" else []
+            vnext += len(vids)
+            rr = Req(j=0, sock=so["sock"], remote=so["remote"], rsock=so["rsock"], role="create", tp=tp, n=n, vids=vids, busy=[],
+                     q_addr=addr, ent_addr=addr + 1, arg_addr=addr + 2, ghost_delay=0, refuse=True)
+            addr += 3
+            subs.insert(ch.draw(len(subs), "refpos"), {"reqs": [rr], "filler": 0, "waits": [0], "order": [0], "unit_need": vnext,
+                                                         "refused": True})
         apps.append({"id": a, "socks": socks, "subs": subs, "unit": max(vnext, 1)})
     return {"apps": apps}
 
@@ -128,6 +151,8 @@ def build_program(sub: Dict[str, Any]) -> List[tuple]:
             args: List[Optional[int]] = [None] * 20
             args[0] = 0 if r.tp == "K" else 1
             args[1] = r.n
+            if getattr(r, "refuse", False):
+                args[6] = REFUSE_TAG        # max_time field doubles as the tag the stub stack recognises
             emit_array(p, r.arg_addr, args)
     # pre-allocate some target qubits (they make the keep responses wait)
     for r in reqs:
@@ -200,8 +225,11 @@ def run_sdk(ch: Choices, opts: Dict[str, Any], calm: bool) -> Dict[str, Any]:
     legacy = ch.flag(1, 3, "legacy")
     link = FakeLink(ch, sched, trace, legacy=legacy, max_gen_delay=0 if calm else 400, max_deliver_delay=0 if calm else 400)
     nodes = [ControllerNode(f"n{i}", i, TraceQMem(lambda q: 0), lambda: sched.now, flavour="vanilla", link=link) for i in (0, 1)]
+    pk = [install_purpose_map(ch, nd) for nd in nodes]
     faults: Dict[str, int] = {}
     probes: Dict[str, int] = {}
+    if any(pk):
+        probes["purpose-id-differs-from-socket-id"] = 1
 
     def bump(d, k, n=1):
         d[k] = d.get(k, 0) + n
@@ -343,9 +371,13 @@ def run(ch: Choices, opts: Dict[str, Any]) -> Dict[str, Any]:
                     max_gen_delay=0 if calm else (3000 if slow_link else 300),
                     max_deliver_delay=0 if calm else (3000 if slow_link else 300))
     node = ControllerNode("n0", 0, qm, lambda: sched.now, flavour="vanilla", link=link)
+    pk = [install_purpose_map(ch, node)]
+    node.stack.refuse = lambda req: getattr(req, "max_time", 0) == REFUSE_TAG
     ex = node.ex
     faults: Dict[str, int] = {}
     probes: Dict[str, int] = {}
+    if any(pk):
+        probes["purpose-id-differs-from-socket-id"] = 1
 
     def bump(d, k, n=1):
         d[k] = d.get(k, 0) + n
@@ -371,9 +403,10 @@ def run(ch: Choices, opts: Dict[str, Any]) -> Dict[str, Any]:
             qa = exr._get_register(aid, command.qubit_addr_array)
             n = len(exr._app_arrays[aid]._arrays[ent]) // 10
             role = "create" if mn == "create_epr" else "recv"
-            key = (role, remote, sock)
+            purpose = node.stack.pfun(sock)
+            key = (role, remote, purpose)
             rq = exr._epr_create_requests if role == "create" else exr._epr_recv_requests
-            if len(rq[(remote, sock)]) > 1:
+            if len(rq[(remote, purpose)]) > 1:
                 bump(probes, "two-requests-one-key")
             early = sum(1 for d in link.delivered if (d["role"], d["remote"], d["purpose"]) == key) - \
                 sum(x["n"] for x in issued if x["key"] == key)
@@ -472,6 +505,13 @@ def run(ch: Choices, opts: Dict[str, Any]) -> Dict[str, Any]:
                     y = next(g)
                 except StopIteration:
                     break
+                except RuntimeError as e:
+                    if sub.get("refused") and "simulated fault" in str(e):
+                        bump(faults, "network-stack-refuses-request")
+                        bump(probes, "request-refused-by-stack")
+                        trace.add("refused", aid, k)
+                        break
+                    raise
                 if isinstance(y, tuple) and y and y[0] == "instr":
                     op = prog[y[2]]
                     state["freed"] = (aid, ex._get_register(aid, _reg(op[1]))) if op[0] == "qfree" else None
